@@ -71,8 +71,63 @@ def resolve(case):
     raise ValueError("unknown case kind %r" % (k,))
 
 
+RELINE_DELTAS = [1, 1, 1, 2, 3, 10, 126, 127, 128, 129, 130, 253, 254, 255, 256, 257, 381, 508, 510, 511, 1000, 40000]
+
+
+def reline(tree, rng, noline_ok):
+    """Reassign statement line numbers of a parsed program by a random walk with boundary deltas (both directions).
+    The real compiler then emits line tables that source text alone rarely produces."""
+    import ast
+    line = [rng.choice([1, 1, 5, 300])]
+
+    def visit_body(body):
+        for st in body:
+            d = rng.choice(RELINE_DELTAS) if rng.random() < 0.5 else 1
+            if rng.random() < 0.3 and line[0] - d >= 1:
+                d = -d
+            line[0] += d
+            new = line[0]
+            if noline_ok and rng.random() < 0.04 and not isinstance(st, (ast.FunctionDef, ast.ClassDef, ast.AsyncFunctionDef)):
+                new = -1
+            old = getattr(st, "lineno", None)
+            for n in ast.walk(st):
+                if hasattr(n, "lineno") and not (n is not st and isinstance(n, ast.stmt)):
+                    # keep the shape of multi-line expressions (offset from the statement's line)
+                    off = (n.lineno - old) if (old is not None and new != -1 and rng.random() < 0.7) else 0
+                    n.lineno = new + off if new != -1 else -1
+                    if hasattr(n, "end_lineno"):
+                        n.end_lineno = n.lineno
+            for field in ("body", "orelse", "finalbody"):
+                sub = getattr(st, field, None)
+                if isinstance(sub, list) and sub and isinstance(sub[0], ast.stmt):
+                    visit_body(sub)
+            for h in getattr(st, "handlers", []) or []:
+                line[0] += 1
+                h.lineno = line[0]
+                if hasattr(h, "end_lineno"):
+                    h.end_lineno = h.lineno
+                visit_body(h.body)
+            for c in getattr(st, "cases", []) or []:
+                visit_body(c.body)
+    visit_body(tree.body)
+    return tree
+
+
 def compile_case(case):
     """Returns (id, code, text) or (id, None, reason) when the source does not compile."""
+    if case["k"] == "ast":
+        import ast
+        id_, text, filename, mode, opt = resolve(case["base"])
+        id_ = "ast:%s:%s" % (case["i"], id_)
+        try:
+            with warnings.catch_warnings():
+                warnings.simplefilter("ignore")
+                tree = ast.parse(text, filename)
+                tree = reline(tree, H.rng_for(case["seed"], "reline", case["i"]), H.IS310 and case.get("noline", True))
+                code = compile(tree, "<ast-%s>" % case["i"], "exec", dont_inherit=True, optimize=opt)
+        except (SyntaxError, ValueError, RecursionError, MemoryError, OverflowError, TypeError, SystemError) as e:
+            return id_, None, "ast-compile:%s" % type(e).__name__
+        return id_, code, text
     if case["k"] == "w9":
         import gen_const
         try:
@@ -93,6 +148,9 @@ def replay_case(case):
     """Self-contained copy of a case for a replay file (text inlined when small)."""
     if case["k"] == "w9":
         return case
+    if case["k"] == "ast":
+        b = replay_case(case["base"])
+        return dict(case, base=b, id="ast:%s:%s" % (case["i"], b.get("id")))
     try:
         id_, text, filename, mode, opt = resolve(case)
     except Exception:
